@@ -32,7 +32,10 @@ use ractor_cluster::remote_actor_verif_hooks::ProxyProbe;
 /// which key the pg maps) differ.
 ///
 /// ops (`dir` = a|b: which node's proxy is used; `t` = probe index):
-///   e2e <case> <nprobes>            build the world, connect, settle       -> ready a=<nidA> b=<nidB>
+///   e2e <case> <nprobes> [a|b|-] [<t>:<s>:<g>,…]   build the world, connect, settle   -> ready a=<nidA> b=<nidB>
+///                                   a|b: that relay direction stands still after the authentication frames;
+///                                   t:s:g: probe t joins group g of scope s (`-` = default scope) BEFORE the
+///                                   nodes connect (these memberships travel in the initial scan)
 ///   cast <dir> <t> <sender> <seq>   proxy.cast(Cast(sender, seq))          -> ok|err
 ///   call <dir> <t> <id> <req>       caller task: proxy.call(Call(req))     -> ok
 ///   hold <dir> <t> <id> <req>       same with a request the probe never answers -> ok
@@ -43,8 +46,8 @@ use ractor_cluster::remote_actor_verif_hooks::ProxyProbe;
 ///   settle                          run everything to quiescence           -> quiet|busy
 ///   recv <t>                        the probe's log                        -> k<sender>:<seq>,c<req>,h<req>,…|-
 ///   result <id>                     the caller's outcome                   -> pending|aborted|ok:<v>|dropped|timeout|senderr
-///   join <t> <g> / leave <t> <g>    pg::join / pg::leave of the real probe -> ok
-///   members <g>                     pg::get_members                        -> L<t>,Ra<t>,Rb<t>,…|-
+///   join <t> <g> [<s>] / leave <t> <g> [<s>]   pg::join(_scoped) / pg::leave(_scoped) of the real probe -> ok
+///   members <g> [<s>]               pg::get_members / get_scoped_members   -> L<t>,Ra<t>,Rb<t>,…|-
 ///   spawn                           a new probe (index = next)             -> ok
 ///   stop <t>                        the probe exits                        -> ok
 ///   status <dir> <t>                status of that side's proxy            -> Running|Stopped|…|none
@@ -283,6 +286,11 @@ mod e2e {
             format!("c{}-{g}", self.case)
         }
 
+        /// `-` = the default scope; named scopes are per case (pg is process-global)
+        fn scope(&self, s: &str) -> String {
+            if s == "-" { ractor::pg::DEFAULT_SCOPE.to_string() } else { format!("c{}-{s}", self.case) }
+        }
+
         async fn spawn_probe(&mut self, st: &mut Stats) -> bool {
             let idx = self.probes.len() as u64;
             let log: ProbeLog = Arc::new(Mutex::new(Vec::new()));
@@ -299,7 +307,14 @@ mod e2e {
             }
         }
 
-        async fn new(case: u64, nprobes: usize, hold: Option<usize>, seed: u64, st: &mut Stats) -> Option<(World, String)> {
+        async fn new(
+            case: u64,
+            nprobes: usize,
+            hold: Option<usize>,
+            pre: &[(usize, String, String)],
+            seed: u64,
+            st: &mut Stats,
+        ) -> Option<(World, String)> {
             let ctl = ractor::verif::install();
             let mut rng = Rng::new(seed ^ case.wrapping_mul(0x9E37));
             let host = format!("h{case}");
@@ -339,8 +354,19 @@ mod e2e {
             // some probes exist before the connection (advertised by the initial scan), the
             // others are spawned afterwards (advertised by the pid monitor)
             let before = w.rng.range(0, nprobes as u64) as usize;
+            // a probe that joins a group before the connection must exist before it
+            let before = before.max(pre.iter().map(|(t, _, _)| t + 1).max().unwrap_or(0)).min(nprobes);
             for _ in 0..before {
                 w.spawn_probe(st).await;
+            }
+            for (t, sc, g) in pre {
+                if let Some((a, _)) = w.probes.get(*t) {
+                    ractor::pg::join_scoped(w.scope(sc), w.group(g), vec![a.get_cell()]);
+                    st.bump("e_pg_before_connect");
+                    if sc != "-" {
+                        st.bump("e_pg_before_connect_named_scope");
+                    }
+                }
             }
             // the real connection, through the relay
             let (a_sess, a_relay) = tokio::io::duplex(64 * 1024);
@@ -564,24 +590,36 @@ mod e2e {
                         },
                     }
                 }
-                [kind @ ("join" | "leave"), t, g] => {
+                [kind @ ("join" | "leave"), t, g, rest @ ..] if rest.len() <= 1 => {
                     st.bump("e_pg");
+                    let sc = rest.first().copied().unwrap_or("-");
+                    if sc != "-" {
+                        st.bump("e_pg_named_scope");
+                    }
                     let t: usize = t.parse().unwrap();
                     match self.probes.get(t) {
                         None => "noprobe".into(),
                         Some((a, _)) => {
-                            if *kind == "join" {
-                                ractor::pg::join(self.group(g), vec![a.get_cell()]);
-                            } else {
-                                ractor::pg::leave(self.group(g), vec![a.get_cell()]);
+                            // the default scope goes through the unscoped API, as an application would
+                            match (*kind == "join", sc == "-") {
+                                (true, true) => ractor::pg::join(self.group(g), vec![a.get_cell()]),
+                                (true, false) => ractor::pg::join_scoped(self.scope(sc), self.group(g), vec![a.get_cell()]),
+                                (false, true) => ractor::pg::leave(self.group(g), vec![a.get_cell()]),
+                                (false, false) => ractor::pg::leave_scoped(self.scope(sc), self.group(g), vec![a.get_cell()]),
                             }
                             "ok".into()
                         }
                     }
                 }
-                ["members", g] => {
+                ["members", g, rest @ ..] if rest.len() <= 1 => {
+                    let sc = rest.first().copied().unwrap_or("-");
+                    let cells = if sc == "-" {
+                        ractor::pg::get_members(&self.group(g))
+                    } else {
+                        ractor::pg::get_scoped_members(&self.scope(sc), &self.group(g))
+                    };
                     let mut v: Vec<String> = Vec::new();
-                    for c in ractor::pg::get_members(&self.group(g)) {
+                    for c in cells {
                         let t = self.probes.iter().position(|(a, _)| a.get_id().pid() == c.get_id().pid());
                         let t = t.map(|t| t.to_string()).unwrap_or("?".into());
                         v.push(match c.get_id() {
@@ -666,14 +704,28 @@ mod e2e {
         let w: Vec<&str> = first.split_whitespace().collect();
         let (case, nprobes, hold): (u64, usize, Option<usize>) = match w.as_slice() {
             ["e2e", c, n] => (c.parse().unwrap_or(0), n.parse().unwrap_or(1), None),
-            ["e2e", c, n, h] => (c.parse().unwrap_or(0), n.parse().unwrap_or(1), match *h { "a" => Some(0), "b" => Some(1), _ => None }),
+            ["e2e", c, n, h] | ["e2e", c, n, h, _] => {
+                (c.parse().unwrap_or(0), n.parse().unwrap_or(1), match *h { "a" => Some(0), "b" => Some(1), _ => None })
+            }
             _ => return,
         };
+        let mut pre: Vec<(usize, String, String)> = vec![];
+        if let ["e2e", _, _, _, p] = w.as_slice() {
+            for e in p.split(',') {
+                let f: Vec<&str> = e.split(':').collect();
+                if let [t, sc, g] = f.as_slice() {
+                    if let Ok(t) = t.parse::<usize>() {
+                        pre.push((t, sc.to_string(), g.to_string()));
+                    }
+                }
+            }
+            st.bump("e2e_cases_with_groups_before_connect");
+        }
         st.bump("e2e_cases");
         if hold.is_some() {
             st.bump("e2e_cases_with_held_exchange");
         }
-        let Some((mut world, obs)) = World::new(case, nprobes, hold, 0xC20, st).await else {
+        let Some((mut world, obs)) = World::new(case, nprobes, hold, &pre, 0xC20, st).await else {
             log.rec(first, "setup-failed");
             ractor::verif::uninstall();
             return;
@@ -691,19 +743,54 @@ mod e2e {
         // a third of the cases: one direction of the relay stands still right after the
         // authentication frames, and actors exit / join / leave / appear in that window
         let hold = if rng.chance(1, 3) { Some(*rng.pick(&["a", "b"])) } else { None };
-        let mut ops = vec![match hold {
-            Some(h) => format!("e2e {c} {nprobes} {h}"),
-            None => format!("e2e {c} {nprobes}"),
+        // the scopes of this case: the default one (`-`) and up to two named ones; the same group
+        // names are used in every scope, so that a scope mix-up shows
+        let scopes: Vec<&str> = match rng.below(3) {
+            0 => vec!["-"],
+            1 => vec!["-", "s1"],
+            _ => vec!["-", "s1", "s2"],
+        };
+        let groups = ["g1", "g2"];
+        // memberships that exist before the nodes connect (they travel in the initial scan)
+        let mut pre: Vec<String> = vec![];
+        if rng.chance(1, 2) {
+            for _ in 0..rng.range(1, 5) {
+                let e = format!("{}:{}:{}", rng.below(nprobes), *rng.pick(&scopes[..]), *rng.pick(&groups[..]));
+                if !pre.contains(&e) {
+                    pre.push(e);
+                }
+            }
+        }
+        let mut ops = vec![match (hold, pre.is_empty()) {
+            (Some(h), true) => format!("e2e {c} {nprobes} {h}"),
+            (None, true) => format!("e2e {c} {nprobes}"),
+            (h, false) => format!("e2e {c} {nprobes} {} {}", h.unwrap_or("-"), pre.join(",")),
         }];
+        // `<g>` in the default scope, `<g> <s>` in a named one
+        let pg = |g: &str, s: &str| if s == "-" { g.to_string() } else { format!("{g} {s}") };
+        let pgr = |rng: &mut Rng| -> String {
+            let g: &str = *rng.pick(&groups[..]);
+            let s: &str = *rng.pick(&scopes[..]);
+            pg(g, s)
+        };
+        let all_members = |ops: &mut Vec<String>| {
+            for s in &scopes {
+                for g in groups {
+                    ops.push(format!("members {}", pg(g, s)));
+                }
+            }
+        };
         let mut live: Vec<u64> = (0..nprobes).collect();
         let mut all = nprobes;
+        if hold.is_none() && !pre.is_empty() {
+            // the moment the session is ready
+            ops.push("settle".into());
+            all_members(&mut ops);
+        }
         if hold.is_some() {
-            let groups = ["g1", "g2"];
             let observe = |ops: &mut Vec<String>, all: u64| {
                 ops.push("settle".into());
-                for g in groups {
-                    ops.push(format!("members {g}"));
-                }
+                all_members(ops);
                 for t in 0..all {
                     ops.push(format!("members p{t}"));
                     ops.push(format!("status a {t}"));
@@ -713,8 +800,8 @@ mod e2e {
             observe(&mut ops, all);
             for _ in 0..rng.range(1, 4) {
                 match rng.below(10) {
-                    0..=2 if !live.is_empty() => ops.push(format!("join {} {}", rng.pick(&live), rng.pick(&groups))),
-                    3 if !live.is_empty() => ops.push(format!("leave {} {}", rng.pick(&live), rng.pick(&groups))),
+                    0..=2 if !live.is_empty() => ops.push(format!("join {} {}", rng.pick(&live), pgr(rng))),
+                    3 if !live.is_empty() => ops.push(format!("leave {} {}", rng.pick(&live), pgr(rng))),
                     4..=6 if !live.is_empty() => {
                         let i = rng.below(live.len() as u64) as usize;
                         ops.push(format!("stop {}", live.remove(i)));
@@ -737,7 +824,6 @@ mod e2e {
         let mut ncall = 0u64;
         let mut open_calls: Vec<u64> = vec![];
         let dirs = ["a", "b"];
-        let groups = ["g1", "g2"];
         let rounds = rng.range(2, 6);
         let mut cut = false;
         let mut clock = 0u64; // total advance stays below the ping period, so no ping traffic
@@ -789,11 +875,11 @@ mod e2e {
             match rng.below(10) {
                 0 | 1 if !live.is_empty() => {
                     let t = *rng.pick(&live);
-                    ops.push(format!("join {t} {}", rng.pick(&groups)));
+                    ops.push(format!("join {t} {}", pgr(rng)));
                 }
                 2 if !live.is_empty() => {
                     let t = *rng.pick(&live);
-                    ops.push(format!("leave {t} {}", rng.pick(&groups)));
+                    ops.push(format!("leave {t} {}", pgr(rng)));
                 }
                 3 if !live.is_empty() => {
                     let i = rng.below(live.len() as u64) as usize;
@@ -821,9 +907,7 @@ mod e2e {
             for id in 0..ncall {
                 ops.push(format!("result {id}"));
             }
-            for g in groups {
-                ops.push(format!("members {g}"));
-            }
+            all_members(&mut ops);
             for t in 0..all {
                 ops.push(format!("members p{t}"));
                 ops.push(format!("status a {t}"));
